@@ -277,52 +277,73 @@ pub mod env {
     pub trait ManifestInterpretationVisitor {
         type Output: From<ManifestValidationError>;
 
+        /// an invariant of the visitor (chosen by the implementation; `false` is always a valid choice) under
+        /// which it never breaks: lets contracts state COMPLETENESS ("with a visitor that does not object, an
+        /// operation is accepted exactly when its guard holds"), e.g. for the no-op visitor `()` used by `validate()`
+        spec fn quiet(&self) -> bool;
+
         spec fn answer_new_bucket(&self, bucket: ManifestBucket, state: BucketState) -> ControlFlow<Self::Output>;
         fn on_new_bucket(&mut self, details: OnNewBucket) -> (r: ControlFlow<Self::Output>)
-            ensures r == old(self).answer_new_bucket(details.bucket, *details.state);
+            ensures r == old(self).answer_new_bucket(details.bucket, *details.state),
+                    old(self).quiet() ==> final(self).quiet() && r is Continue;
 
         spec fn answer_consume_bucket(&self, bucket: ManifestBucket, state: BucketState, destination: BucketDestination) -> ControlFlow<Self::Output>;
         fn on_consume_bucket(&mut self, details: OnConsumeBucket) -> (r: ControlFlow<Self::Output>)
-            ensures r == old(self).answer_consume_bucket(details.bucket, *details.state, details.destination);
+            ensures r == old(self).answer_consume_bucket(details.bucket, *details.state, details.destination),
+                    old(self).quiet() ==> final(self).quiet() && r is Continue;
 
         spec fn answer_new_proof(&self, proof: ManifestProof, state: ProofState) -> ControlFlow<Self::Output>;
         fn on_new_proof(&mut self, details: OnNewProof) -> (r: ControlFlow<Self::Output>)
-            ensures r == old(self).answer_new_proof(details.proof, *details.state);
+            ensures r == old(self).answer_new_proof(details.proof, *details.state),
+                    old(self).quiet() ==> final(self).quiet() && r is Continue;
 
         spec fn answer_consume_proof(&self, proof: ManifestProof, state: ProofState, destination: ProofDestination) -> ControlFlow<Self::Output>;
         fn on_consume_proof(&mut self, details: OnConsumeProof) -> (r: ControlFlow<Self::Output>)
-            ensures r == old(self).answer_consume_proof(details.proof, *details.state, details.destination);
+            ensures r == old(self).answer_consume_proof(details.proof, *details.state, details.destination),
+                    old(self).quiet() ==> final(self).quiet() && r is Continue;
 
         spec fn answer_new_address_reservation(&self, address_reservation: ManifestAddressReservation, state: AddressReservationState) -> ControlFlow<Self::Output>;
         fn on_new_address_reservation(&mut self, details: OnNewAddressReservation) -> (r: ControlFlow<Self::Output>)
-            ensures r == old(self).answer_new_address_reservation(details.address_reservation, *details.state);
+            ensures r == old(self).answer_new_address_reservation(details.address_reservation, *details.state),
+                    old(self).quiet() ==> final(self).quiet() && r is Continue;
 
         spec fn answer_consume_address_reservation(&self, address_reservation: ManifestAddressReservation, state: AddressReservationState,
                                                    destination: AddressReservationDestination) -> ControlFlow<Self::Output>;
         fn on_consume_address_reservation(&mut self, details: OnConsumeAddressReservation) -> (r: ControlFlow<Self::Output>)
-            ensures r == old(self).answer_consume_address_reservation(details.address_reservation, *details.state, details.destination);
+            ensures r == old(self).answer_consume_address_reservation(details.address_reservation, *details.state, details.destination),
+                    old(self).quiet() ==> final(self).quiet() && r is Continue;
 
         spec fn answer_new_named_address(&self, named_address: ManifestNamedAddress, state: NamedAddressState,
                                          package_address: &PackageAddress, blueprint_name: &str) -> ControlFlow<Self::Output>;
         fn on_new_named_address(&mut self, details: OnNewNamedAddress) -> (r: ControlFlow<Self::Output>)
-            ensures r == old(self).answer_new_named_address(details.named_address, *details.state, details.package_address, details.blueprint_name);
+            ensures r == old(self).answer_new_named_address(details.named_address, *details.state, details.package_address, details.blueprint_name),
+                    old(self).quiet() ==> final(self).quiet() && r is Continue;
 
         spec fn answer_new_intent(&self, intent: ManifestNamedIntent, state: IntentState) -> ControlFlow<Self::Output>;
         fn on_new_intent(&mut self, details: OnNewIntent) -> (r: ControlFlow<Self::Output>)
-            ensures r == old(self).answer_new_intent(details.intent, *details.state);
+            ensures r == old(self).answer_new_intent(details.intent, *details.state),
+                    old(self).quiet() ==> final(self).quiet() && r is Continue;
 
         spec fn answer_finish(&self) -> ControlFlow<Self::Output>;
         fn on_finish(&mut self, details: OnFinish) -> (r: ControlFlow<Self::Output>)
-            ensures r == old(self).answer_finish();
+            ensures r == old(self).answer_finish(),
+                    old(self).quiet() ==> final(self).quiet() && r is Continue;
 
         // events that do not concern the id lifecycle: any answer
-        fn on_start_instruction(&mut self, details: OnStartInstruction) -> ControlFlow<Self::Output>;
-        fn on_end_instruction(&mut self, details: OnEndInstruction) -> ControlFlow<Self::Output>;
-        fn on_drop_authzone_proofs(&mut self, details: OnDropAuthZoneProofs) -> ControlFlow<Self::Output>;
-        fn on_pass_expression(&mut self, details: OnPassExpression) -> ControlFlow<Self::Output>;
-        fn on_pass_blob(&mut self, details: OnPassBlob) -> ControlFlow<Self::Output>;
-        fn on_resource_assertion(&mut self, details: OnResourceAssertion) -> ControlFlow<Self::Output>;
-        fn on_verification(&mut self, details: OnVerification) -> ControlFlow<Self::Output>;
+        fn on_start_instruction(&mut self, details: OnStartInstruction) -> (r: ControlFlow<Self::Output>)
+            ensures old(self).quiet() ==> final(self).quiet() && r is Continue;
+        fn on_end_instruction(&mut self, details: OnEndInstruction) -> (r: ControlFlow<Self::Output>)
+            ensures old(self).quiet() ==> final(self).quiet() && r is Continue;
+        fn on_drop_authzone_proofs(&mut self, details: OnDropAuthZoneProofs) -> (r: ControlFlow<Self::Output>)
+            ensures old(self).quiet() ==> final(self).quiet() && r is Continue;
+        fn on_pass_expression(&mut self, details: OnPassExpression) -> (r: ControlFlow<Self::Output>)
+            ensures old(self).quiet() ==> final(self).quiet() && r is Continue;
+        fn on_pass_blob(&mut self, details: OnPassBlob) -> (r: ControlFlow<Self::Output>)
+            ensures old(self).quiet() ==> final(self).quiet() && r is Continue;
+        fn on_resource_assertion(&mut self, details: OnResourceAssertion) -> (r: ControlFlow<Self::Output>)
+            ensures old(self).quiet() ==> final(self).quiet() && r is Continue;
+        fn on_verification(&mut self, details: OnVerification) -> (r: ControlFlow<Self::Output>)
+            ensures old(self).quiet() ==> final(self).quiet() && r is Continue;
     }
 }
 
@@ -335,6 +356,7 @@ pub mod unit {
     use super::vec_iter::*;
     use super::env::*;
     use super::env::Decimal;
+    use super::env::ManifestInstructionEffect as Effect;
 
     /*@item radix-transactions/src/validation/id_validator.rs :: enum ProofKind
     @derive PartialEq, Eq
@@ -500,9 +522,9 @@ pub mod unit {
             &&& self.address_reservation_state@.len() <= f.address_reservation_state@.len()
             &&& self.named_address_state@.len() <= f.named_address_state@.len()
             &&& self.intent_state@.len() <= f.intent_state@.len()
-            &&& forall|b: ManifestBucket| self.bucket_created(b) && !self.bucket_live(b) ==> !f.bucket_live(b)
-            &&& forall|p: ManifestProof| self.proof_created(p) && !self.proof_live(p) ==> !f.proof_live(p)
-            &&& forall|r: ManifestAddressReservation| self.reservation_created(r) && !self.reservation_live(r) ==> !f.reservation_live(r)
+            &&& forall|b: ManifestBucket| #![trigger f.bucket_live(b)] #![trigger self.bucket_live(b)] self.bucket_created(b) && !self.bucket_live(b) ==> !f.bucket_live(b)
+            &&& forall|p: ManifestProof| #![trigger f.proof_live(p)] #![trigger self.proof_live(p)] self.proof_created(p) && !self.proof_live(p) ==> !f.proof_live(p)
+            &&& forall|r: ManifestAddressReservation| #![trigger f.reservation_live(r)] #![trigger self.reservation_live(r)] self.reservation_created(r) && !self.reservation_live(r) ==> !f.reservation_live(r)
         }
 
         /// the parts of the state that no lifecycle operation touches
@@ -615,6 +637,13 @@ pub mod unit {
         }
     }
 
+    /// the list built by DROP_ALL_PROOFS: exactly the live proofs
+    pub open spec fn drop_list_ok(ps: Seq<ProofState>, ids: Seq<ManifestProof>) -> bool {
+        &&& forall|k: int| 0 <= k < ids.len() ==> (#[trigger] ids[k]).0 < ps.len() && ps[ids[k].0 as int].consumed_at is None
+        &&& forall|k: int, l: int| 0 <= k < l < ids.len() ==> (#[trigger] ids[k]).0 < (#[trigger] ids[l]).0
+        &&& forall|i: int| 0 <= i < ps.len() && (#[trigger] ps[i]).consumed_at is None ==> exists|k: int| 0 <= k < ids.len() && (#[trigger] ids[k]).0 == i
+    }
+
     /// C36 "nothing is consumed twice", over arbitrary operation sequences: `no_resurrection` composes.
     pub proof fn lemma_no_resurrection_trans<'a, M: ReadableManifest + ?Sized>(
         a: &StaticManifestInterpreter<'a, M>, b: &StaticManifestInterpreter<'a, M>, c: &StaticManifestInterpreter<'a, M>)
@@ -697,6 +726,8 @@ pub mod unit {
                             && final(self).bucket_live(b) && !locked(final(self).proof_state@, b)
                     &&& ret is Break ==> old(self).same_buckets(final(self))
                 }),
+                old(visitor).quiet() ==> final(visitor).quiet(),
+                old(visitor).quiet() ==> ret is Continue,
                 old(self).same_config(final(self)), old(self).same_proofs(final(self)), old(self).same_addresses(final(self)),
                 final(self).wf(),
                 old(self).no_resurrection(final(self)),
@@ -746,6 +777,8 @@ pub mod unit {
                             && final(self).bucket_state@ == old(self).bucket_state@.update(bucket.0 as int, st1)
                             && !final(self).bucket_live(bucket)
                 }),
+                old(visitor).quiet() ==> final(visitor).quiet(),
+                old(visitor).quiet() ==> (ret is Continue <==> old(self).bucket_live(bucket) && !locked(old(self).proof_state@, bucket)),
                 old(self).same_config(final(self)), old(self).same_proofs(final(self)), old(self).same_addresses(final(self)),
                 final(self).wf(),
                 old(self).no_resurrection(final(self)),
@@ -784,6 +817,8 @@ pub mod unit {
                             && final(self).wf()
                     &&& ret is Break ==> old(self).same_proofs(final(self))
                 }),
+                old(visitor).quiet() ==> final(visitor).quiet(),
+                old(visitor).quiet() ==> (ret is Continue <==> (source_amount.kind() matches ProofKind::BucketProof(b) ==> old(self).bucket_live(b))),
                 final(self).bucket_state@.len() == old(self).bucket_state@.len(),
                 old(self).same_config(final(self)), old(self).same_addresses(final(self)),
                 old(self).no_resurrection(final(self)),
@@ -846,6 +881,8 @@ pub mod unit {
                             && final(self).wf()
                     &&& ret is Break ==> old(self).same_proofs(final(self))
                 }),
+                old(visitor).quiet() ==> final(visitor).quiet(),
+                old(visitor).quiet() ==> (ret is Continue <==> old(self).proof_live(cloned_proof)),
                 final(self).bucket_state@.len() == old(self).bucket_state@.len(),
                 old(self).same_config(final(self)), old(self).same_addresses(final(self)),
                 old(self).no_resurrection(final(self)),
@@ -877,6 +914,8 @@ pub mod unit {
                             && final(self).wf()
                     &&& ret is Break ==> old(self).same_buckets(final(self))
                 }),
+                old(visitor).quiet() ==> final(visitor).quiet(),
+                old(visitor).quiet() ==> (ret is Continue <==> old(self).proof_live(proof)),
                 final(self).bucket_state@.len() == old(self).bucket_state@.len(),
                 old(self).same_config(final(self)), old(self).same_addresses(final(self)),
                 old(self).no_resurrection(final(self)),
@@ -930,6 +969,8 @@ pub mod unit {
                     &&& answer matches ControlFlow::Break(o) ==> ret == ControlFlow::<Out<V>, ManifestAddressReservation>::Break(o)
                             && old(self).same_reservations(final(self))
                 }),
+                old(visitor).quiet() ==> final(visitor).quiet(),
+                old(visitor).quiet() ==> ret is Continue,
                 old(self).same_config(final(self)), old(self).same_buckets(final(self)), old(self).same_proofs(final(self)),
                 old(self).same_named_addresses(final(self)), old(self).same_intents(final(self)),
                 final(self).wf(),
@@ -964,6 +1005,8 @@ pub mod unit {
                             && final(self).address_reservation_state@ == old(self).address_reservation_state@.update(address_reservation.0 as int, st1)
                             && !final(self).reservation_live(address_reservation)
                 }),
+                old(visitor).quiet() ==> final(visitor).quiet(),
+                old(visitor).quiet() ==> (ret is Continue <==> old(self).reservation_live(address_reservation)),
                 old(self).same_config(final(self)), old(self).same_buckets(final(self)), old(self).same_proofs(final(self)),
                 old(self).same_named_addresses(final(self)), old(self).same_intents(final(self)),
                 final(self).wf(),
@@ -985,6 +1028,8 @@ pub mod unit {
                             && final(self).named_address_created(a)
                     &&& ret is Break ==> old(self).same_named_addresses(final(self))
                 }),
+                old(visitor).quiet() ==> final(visitor).quiet(),
+                old(visitor).quiet() ==> ret is Continue,
                 old(self).same_config(final(self)), old(self).same_buckets(final(self)), old(self).same_proofs(final(self)),
                 old(self).same_reservations(final(self)), old(self).same_intents(final(self)),
                 final(self).wf(),
@@ -1017,6 +1062,8 @@ pub mod unit {
                     &&& ret is Continue ==> final(self).intent_state@ == old(self).intent_state@.push(st) && final(self).intent_created(i)
                     &&& ret is Break ==> old(self).same_intents(final(self))
                 }),
+                old(visitor).quiet() ==> final(visitor).quiet(),
+                old(visitor).quiet() ==> ret is Continue,
                 old(self).same_config(final(self)), old(self).same_buckets(final(self)), old(self).same_proofs(final(self)),
                 old(self).same_reservations(final(self)), old(self).same_named_addresses(final(self)),
                 final(self).wf(),
@@ -1043,6 +1090,7 @@ pub mod unit {
             ensures
                 old(self).same_settings(final(self)), old(self).location == final(self).location,
                 old(self).same_buckets(final(self)), old(self).same_proofs(final(self)), old(self).same_addresses(final(self)),
+                old(visitor).quiet() ==> final(visitor).quiet(),
                 // a bucket assertion is accepted only for a live bucket
                 ret is Continue && old(self).validation_ruleset.validate_resource_assertions ==>
                     (assertion matches ResourceAssertion::Bucket(BucketAssertion::Contents { bucket, .. }) ==> old(self).bucket_live(bucket)),
@@ -1057,6 +1105,8 @@ pub mod unit {
         @sig
             ensures
                 *final(self) == *old(self),
+                old(visitor).quiet() ==> final(visitor).quiet(),
+                old(visitor).quiet() ==> (ret is Continue <==> old(self).manifest.subintent()),
                 ret is Continue ==> old(self).manifest.subintent(),
         @*/
 
@@ -1070,11 +1120,13 @@ pub mod unit {
                 old(self).same_named_addresses(final(self)), old(self).same_intents(final(self)),
                 old(self).no_resurrection(final(self)),
                 ret is Continue ==> final(self).wf(),
+                old(visitor).quiet() ==> final(visitor).quiet(),
                 // the callee / kind of the invocation is acceptable
                 ret is Continue ==> old(self).invocation_target_ok(invocation_kind),
         @loop 1
             invariant
                 self.wf(),
+                old(visitor).quiet() ==> visitor.quiet(),
                 old(self).invocation_target_ok(invocation_kind),
                 old(self).same_config(self), old(self).same_lengths(self),
                 old(self).same_named_addresses(self), old(self).same_intents(self),
@@ -1089,6 +1141,194 @@ pub mod unit {
             proof { lemma_no_resurrection_trans(old(self), &pre, self); }
         @after <<self.consume_address_reservation(>> #1
             proof { lemma_no_resurrection_trans(old(self), &pre, self); }
+        @*/
+
+        // ---------------------------------------------------------------- one instruction
+        /// what an ACCEPTED instruction with effect `e` has done to the id tables (`self` before, `f` after):
+        /// every id it uses was live, every id it consumes is dead afterwards, created ids are fresh and live
+        pub open spec fn effect_ok(&self, f: &Self, e: ManifestInstructionEffect) -> bool {
+            match e {
+                ManifestInstructionEffect::CreateBucket { source_amount } => {
+                    let b = ManifestBucket(self.bucket_state@.len() as u32);
+                    &&& f.bucket_state@.len() == self.bucket_state@.len() + 1
+                    &&& f.bucket_state@.take(self.bucket_state@.len() as int) =~= self.bucket_state@
+                    &&& f.bucket_live(b) && f.bucket_state@[b.0 as int].proof_locks == 0 && f.bucket_state@[b.0 as int].source_amount == source_amount
+                    &&& self.same_proofs(f) && self.same_addresses(f)
+                },
+                ManifestInstructionEffect::CreateProof { source_amount } => {
+                    let p = ManifestProof(self.proof_state@.len() as u32);
+                    &&& source_amount.kind() matches ProofKind::BucketProof(b) ==> self.bucket_live(b)
+                    &&& f.proof_state@.len() == self.proof_state@.len() + 1
+                    &&& f.proof_state@.take(self.proof_state@.len() as int) =~= self.proof_state@
+                    &&& f.proof_live(p) && f.proof_state@[p.0 as int].source_amount == source_amount
+                    &&& f.bucket_state@ == buckets_after_new_proof(self.bucket_state@, source_amount.kind())
+                    &&& self.same_addresses(f)
+                },
+                ManifestInstructionEffect::ConsumeBucket { consumed_bucket, .. } => {
+                    &&& self.bucket_live(consumed_bucket) && !locked(self.proof_state@, consumed_bucket)
+                    &&& !f.bucket_live(consumed_bucket)
+                    &&& f.bucket_state@.len() == self.bucket_state@.len()
+                    &&& forall|i: int| 0 <= i < self.bucket_state@.len() && i != consumed_bucket.0 ==> f.bucket_state@[i] == self.bucket_state@[i]
+                    &&& self.same_proofs(f) && self.same_addresses(f)
+                },
+                ManifestInstructionEffect::ConsumeProof { consumed_proof, .. } => {
+                    &&& self.proof_live(consumed_proof)
+                    &&& !f.proof_live(consumed_proof)
+                    &&& f.proof_state@.len() == self.proof_state@.len()
+                    &&& forall|i: int| 0 <= i < self.proof_state@.len() && i != consumed_proof.0 ==> f.proof_state@[i] == self.proof_state@[i]
+                    &&& f.bucket_state@ == buckets_after_drop_proof(self.bucket_state@, self.proof_state@[consumed_proof.0 as int].source_amount.kind())
+                    &&& self.same_addresses(f)
+                },
+                ManifestInstructionEffect::CloneProof { cloned_proof } => {
+                    let p = ManifestProof(self.proof_state@.len() as u32);
+                    let sa = self.proof_state@[cloned_proof.0 as int].source_amount;
+                    &&& self.proof_live(cloned_proof)
+                    &&& f.proof_state@.len() == self.proof_state@.len() + 1
+                    &&& f.proof_state@.take(self.proof_state@.len() as int) =~= self.proof_state@
+                    &&& f.proof_live(p) && f.proof_state@[p.0 as int].source_amount == sa
+                    &&& f.bucket_state@ == buckets_after_new_proof(self.bucket_state@, sa.kind())
+                    &&& self.same_addresses(f)
+                },
+                ManifestInstructionEffect::DropManyProofs { drop_all_named_proofs, .. } => {
+                    &&& self.same_lengths(f) && self.same_addresses(f)
+                    &&& !drop_all_named_proofs ==> self.same_buckets(f) && self.same_proofs(f)
+                    // DROP_ALL_PROOFS / DROP_NAMED_PROOFS: no proof stays live, every bucket keeps its liveness and ends up unlocked
+                    &&& drop_all_named_proofs ==> {
+                            &&& forall|p: ManifestProof| !f.proof_live(p)
+                            &&& forall|b: ManifestBucket| f.bucket_live(b) <==> self.bucket_live(b)
+                            &&& forall|b: ManifestBucket| f.bucket_live(b) ==> f.bucket_state@[b.0 as int].proof_locks == 0 && !locked(f.proof_state@, b)
+                        }
+                },
+                ManifestInstructionEffect::Invocation { kind, .. } => {
+                    &&& self.same_lengths(f) && self.same_named_addresses(f) && self.same_intents(f)
+                    &&& self.invocation_target_ok(kind)
+                },
+                ManifestInstructionEffect::CreateAddressAndReservation { package_address, blueprint_name } => {
+                    let r = ManifestAddressReservation(self.address_reservation_state@.len() as u32);
+                    let a = ManifestNamedAddress(self.named_address_state@.len() as u32);
+                    &&& f.address_reservation_state@.len() == self.address_reservation_state@.len() + 1
+                    &&& f.address_reservation_state@.take(self.address_reservation_state@.len() as int) =~= self.address_reservation_state@
+                    &&& f.reservation_live(r)
+                    &&& f.named_address_state@.len() == self.named_address_state@.len() + 1
+                    &&& f.named_address_state@.take(self.named_address_state@.len() as int) =~= self.named_address_state@
+                    &&& f.named_address_state@[a.0 as int].associated_reservation == Some(r)
+                    &&& self.same_buckets(f) && self.same_proofs(f) && self.same_intents(f)
+                },
+                ManifestInstructionEffect::ResourceAssertion { assertion } => {
+                    &&& self.same_buckets(f) && self.same_proofs(f) && self.same_addresses(f)
+                    &&& self.validation_ruleset.validate_resource_assertions ==>
+                            (assertion matches ResourceAssertion::Bucket(BucketAssertion::Contents { bucket, .. }) ==> self.bucket_live(bucket))
+                },
+                ManifestInstructionEffect::Verification { .. } => {
+                    &&& self.same_buckets(f) && self.same_proofs(f) && self.same_addresses(f)
+                    &&& self.manifest.subintent()
+                },
+            }
+        }
+
+        /// the lifecycle condition under which an instruction with effect `e` is acceptable in state `self`
+        /// (invocations and resource assertions have further, payload-dependent conditions not modelled here)
+        pub open spec fn effect_guard(&self, e: ManifestInstructionEffect) -> bool {
+            &&& self.next_instruction_requirement is RequiredInvocationDueToNextCallAssertion ==> e is Invocation
+            &&& match e {
+                    ManifestInstructionEffect::CreateProof { source_amount } =>
+                        source_amount.kind() matches ProofKind::BucketProof(b) ==> self.bucket_live(b),
+                    ManifestInstructionEffect::ConsumeBucket { consumed_bucket, .. } =>
+                        self.bucket_live(consumed_bucket) && !locked(self.proof_state@, consumed_bucket),
+                    ManifestInstructionEffect::ConsumeProof { consumed_proof, .. } => self.proof_live(consumed_proof),
+                    ManifestInstructionEffect::CloneProof { cloned_proof } => self.proof_live(cloned_proof),
+                    ManifestInstructionEffect::Verification { .. } => self.manifest.subintent(),
+                    _ => true,
+                }
+        }
+
+        /*@fn radix-transactions/src/manifest/static_manifest_interpreter.rs :: impl<'a, M: ReadableManifest + ?Sized> StaticManifestInterpreter<'a, M> :: fn handle_instruction
+        @sig
+            requires
+                old(self).wf(),
+                old(self).bucket_state@.len() < u32::MAX, old(self).proof_state@.len() < u32::MAX,
+                old(self).address_reservation_state@.len() < u32::MAX, old(self).named_address_state@.len() < u32::MAX,
+            ensures
+                old(self).same_settings(final(self)),
+                final(self).location == (ManifestLocation::Instruction { index }),
+                old(self).no_resurrection(final(self)),
+                ret is Continue ==> final(self).wf() && old(self).effect_ok(final(self), effect),
+                // COMPLETENESS for a visitor that does not object (e.g. `()` as used by `validate()`):
+                // an id-lifecycle instruction is accepted exactly when its guard holds
+                old(visitor).quiet() ==> final(visitor).quiet(),
+                old(visitor).quiet() && !(effect is Invocation) && !(effect is ResourceAssertion) ==>
+                    (ret is Continue <==> old(self).effect_guard(effect)),
+                // an instruction after a next-call assertion must be an invocation
+                ret is Continue && old(self).next_instruction_requirement is RequiredInvocationDueToNextCallAssertion ==> effect is Invocation,
+        @closure 1 := |ip: (usize, &ProofState<'a>)| -> (r: Option<ManifestProof>) ensures r == (if ip.1.consumed_at is None { Some(ManifestProof(ip.0 as u32)) } else { None::<ManifestProof> })
+        @at <<match p.consumed_at>> #1 := let (index, p) = ip;
+        @before <<visitor.on_start_instruction(>> #1
+            let ghost s0 = *self;
+            proof { lemma_no_resurrection_frame(old(self), old(self), self); }
+        @after <<let proofs_to_drop>> #1
+            let ghost ids = proofs_to_drop@;
+            proof {
+                assert(drop_list_ok(s0.proof_state@, ids)) by {
+                    assert(forall|k: int| 0 <= k < ids.len() ==> (#[trigger] ids[k]).0 < s0.proof_state@.len() && s0.proof_state@[ids[k].0 as int].consumed_at is None);
+                    assert(forall|k: int, l: int| 0 <= k < l < ids.len() ==> (#[trigger] ids[k]).0 < (#[trigger] ids[l]).0);
+                    assert(forall|i: int| 0 <= i < s0.proof_state@.len() && (#[trigger] s0.proof_state@[i]).consumed_at is None ==> exists|k: int| 0 <= k < ids.len() && (#[trigger] ids[k]).0 == i);
+                }
+            }
+        @loop 1 iter it
+            invariant
+                it.seq() == ids,
+                drop_list_ok(s0.proof_state@, ids),
+                self.wf(),
+                s0.same_config(self), s0.same_lengths(self), s0.same_addresses(self),
+                s0.no_resurrection(self),
+                old(self).same_settings(&s0), s0.location == (ManifestLocation::Instruction { index }),
+                old(self).no_resurrection(&s0),
+                s0.proof_state@.len() < u32::MAX,
+                forall|i: int| 0 <= i < s0.bucket_state@.len() ==> (#[trigger] self.bucket_state@[i]).consumed_at == s0.bucket_state@[i].consumed_at,
+                forall|k: int| 0 <= k < it.index@ ==> !self.proof_live(#[trigger] ids[k]),
+                forall|k: int| it.index@ <= k < ids.len() ==> self.proof_live(#[trigger] ids[k]),
+                old(visitor).quiet() ==> visitor.quiet(),
+                effect is DropManyProofs,
+                old(self).next_instruction_requirement is RequiredInvocationDueToNextCallAssertion ==> effect is Invocation,
+        @before <<self.consume_proof(visitor, proof, ProofDestination::Drop)>> #1
+            let ghost pre = *self;
+        @after <<self.consume_proof(visitor, proof, ProofDestination::Drop)>> #1
+            proof {
+                lemma_no_resurrection_trans(&s0, &pre, self);
+                assert forall|k: int| 0 <= k < it.index@ + 1 implies !self.proof_live(#[trigger] ids[k]) by {
+                    if k < it.index@ { assert(!pre.proof_live(ids[k])); assert(pre.proof_created(ids[k])); }
+                }
+                assert forall|k: int| it.index@ + 1 <= k < ids.len() implies self.proof_live(#[trigger] ids[k]) by {
+                    assert(pre.proof_live(ids[k]));
+                    assert(ids[it.index@ as int].0 < ids[k].0);
+                }
+            }
+        @after <<for proof in proofs_to_drop>> #1
+            proof {
+                assert forall|p: ManifestProof| !self.proof_live(p) by {
+                    if self.proof_live(p) {
+                        assert(s0.proof_live(p));
+                        let k = choose|k: int| 0 <= k < ids.len() && (#[trigger] ids[k]).0 == p.0 as int;
+                        assert(ids[k] == p);
+                    }
+                }
+                assert forall|b: ManifestBucket| self.bucket_live(b) implies
+                        self.bucket_state@[b.0 as int].proof_locks == 0 && !locked(self.proof_state@, b) by {
+                    assert forall|i: int| !live_proof_of(self.proof_state@, i, b) by {
+                        if live_proof_of(self.proof_state@, i, b) { assert(self.proof_live(ManifestProof(i as u32))); }
+                    }
+                    assert(proofs_of(self.proof_state@, b) =~= Set::<int>::empty());
+                    assert(proofs_of(self.proof_state@, b).len() == 0);
+                    assert(!locked(self.proof_state@, b));
+                    assert(self.bucket_state@[b.0 as int].proof_locks == proofs_of(self.proof_state@, b).len());
+                }
+            }
+        @before <<self.handle_new_named_address(>> #1
+            let ghost mid = *self;
+        @after <<self.handle_new_named_address(>> #1
+            proof { lemma_no_resurrection_trans(&s0, &mid, self); }
+        @before <<visitor.on_end_instruction(>> #1
+            proof { lemma_no_resurrection_trans(old(self), &s0, self); }
         @*/
 
         // ---------------------------------------------------------------- end of the manifest
@@ -1109,6 +1349,7 @@ pub mod unit {
             requires old(self).bucket_state@.len() <= u32::MAX, old(self).address_reservation_state@.len() <= u32::MAX,
             ensures
                 old(self).same_state(final(self)),
+                old(visitor).quiet() ==> final(visitor).quiet(),
                 ({
                     let pending = old(self).next_instruction_requirement is RequiredInvocationDueToNextCallAssertion;
                     let check = old(self).validation_ruleset.validate_no_dangling_nodes;
@@ -1155,6 +1396,7 @@ pub mod unit {
     /// trait's default bodies `ControlFlow::Continue(())`): every answer is Continue
     impl ManifestInterpretationVisitor for () {
         type Output = ManifestValidationError;
+        open spec fn quiet(&self) -> bool { true }
         open spec fn answer_new_bucket(&self, bucket: ManifestBucket, state: BucketState) -> ControlFlow<ManifestValidationError> { ControlFlow::Continue(()) }
         fn on_new_bucket(&mut self, details: OnNewBucket) -> (r: ControlFlow<ManifestValidationError>) { ControlFlow::Continue(()) }
         open spec fn answer_consume_bucket(&self, bucket: ManifestBucket, state: BucketState, destination: BucketDestination) -> ControlFlow<ManifestValidationError> { ControlFlow::Continue(()) }
